@@ -39,6 +39,7 @@ func drawInjectorSet(t *rapid.T, p *Plan) {
 			mode := []string{"value", "empty", "error"}[rapid.IntRange(0, 2).Draw(t, "injmode")]
 			p.ExtraInjectors = append(p.ExtraInjectors, ExtraInjector{Name: fmt.Sprintf("X-Custom-%d", i), Mode: mode, Value: fmt.Sprintf("custom-%d", i)})
 		}
+		p.ExtraInjectorsLate = drawBool(t, "injlate", 40)
 	}
 }
 
@@ -211,6 +212,10 @@ func drawC02(t *rapid.T) *Case {
 	p := &Plan{Check: "C02"}
 	p.Args = drawCommonArgs(t)
 	ho := HelloOpts{AllowNoExt: true}
+	if drawBool(t, "sni253", 6) {
+		// a hello the JA3 parser rejects (known finding D6) must still get its JA4
+		ho.SNILen = 253
+	}
 	cps, metas := DrawFront(t, FrontOpts{MinClients: 1, MaxClients: 3, MaxReqs: 2, Segment: true, Hello: ho, HeaderGen: nominateGen(10)})
 	cps, metas = addResumers(t, cps, metas)
 	aux := &c02Aux{Twin: map[int]int{}}
@@ -569,13 +574,9 @@ func drawC15(t *rapid.T) *Case {
 		ci := len(cps)
 		tag := fmt.Sprintf("c%d-r0", ci)
 		ua := []string{"kube-probe/1.29", "kube-probe/"}[rapid.IntRange(0, 1).Draw(t, "pbua")]
-		if drawBool(t, "pbh1", 40) {
-			cp := &ClientPlan{ID: ci, Addr: drawAddr(t, ci), Hello: fixedHello("h1")}
-			head := fmt.Sprintf("POST /healthz HTTP/1.1\r\nHost: probe.verif.test\r\nUser-Agent: %s\r\nX-Tag: %s\r\nContent-Length: 10\r\n\r\n", ua, tag)
-			cp.Steps = []Step{{Kind: "connect"}, {Kind: "h1req", Pieces: [][]byte{[]byte(head)}, Tag: tag, Method: "POST"}, {Kind: "close"}}
-			cps = append(cps, cp)
-			metas = append(metas, &ClientMeta{Proto: "h1", Reqs: []ReqSpec{{Tag: tag, Method: "POST", Path: "/healthz"}}})
-		} else {
+		// (HTTP/2 only: net/http's HTTP/1.1 server itself reads a declared request body of up
+		// to 256 KiB before it writes the response head, whatever the handler did)
+		{
 			cp := &ClientPlan{ID: ci, Addr: drawAddr(t, ci), Hello: fixedHello("h2")}
 			enc := NewHEnc()
 			fields := [][2]string{{":method", "POST"}, {":scheme", "https"}, {":authority", "probe.verif.test"}, {":path", "/healthz"}, {"user-agent", ua}, {"x-tag", tag}}
